@@ -18,6 +18,7 @@ import numpy as np
 import pandas as pd
 
 INSERT = 250
+AVAILABLE = {"cbw": True}      # False when the hooked internal is gone (refactoring): the chain clauses are then not decidable
 ANTI = ("Antitarget", "Background")
 LOW = -15.0
 
@@ -335,6 +336,11 @@ def post_fix(run, snap, res, args, kwargs):
         if opts["do_rmask"] and cname == "antitarget" and has_rmask:
             expect.append("rmask")
         evs = [e for e in chain if e["keys"] and cls_of.get(e["keys"][0]) == cname]
+        if not AVAILABLE["cbw"]:
+            # no view of the individual corrections: clause C is only decidable for a class without any enabled correction
+            last[cname] = None if not expect else "undecidable"
+            verdict_cls.append(f"{cname}:" + ("none" if not expect else "chain-not-observable"))
+            continue
         # documented escape: corrections are skipped when most bins have no coverage
         n_cov = sum(1 for k in keys if slog[k] > -10)
         if len(keys) < 2:
@@ -376,6 +382,9 @@ def post_fix(run, snap, res, args, kwargs):
     # ---- C. out = corrected sample - reference + constant per class
     for cname, keys in classes.items():
         if not keys:
+            continue
+        if last.get(cname) == "undecidable":
+            run.extra["fix:clause-C-not-decidable-without-correction-hook"] += 1
             continue
         base = last.get(cname) or slog
         d = [olog[k] - (base[k] - rrows[k]["log2"]) for k in keys]
@@ -518,7 +527,7 @@ def attach_all(run, rt):
               ("fix.edge_losses", rt.opt(FX, "edge_losses")), ("fix.edge_gains", rt.opt(FX, "edge_gains")), ("fix.apply_weights", rt.opt(FX, "apply_weights")),
               ("smoothing.rolling_median", rt.opt(SM, "rolling_median")), ("CopyNumArray.center_all", rt.opt(CN.CopyNumArray, "center_all"))]
     rt.attach(FX, "match_ref_to_sample", name="fix.match_ref_to_sample", pre=pre_match, post=post_match, on_exc=exc_match)
-    rt.attach(FX, "center_by_window", name="fix.center_by_window", pre=pre_cbw, post=post_cbw)
+    AVAILABLE["cbw"] = rt.attach(FX, "center_by_window", name="fix.center_by_window", pre=pre_cbw, post=post_cbw) is not None
     rt.attach(FX, "get_edge_bias", name="fix.get_edge_bias", pre=pre_edge, post=post_edge)
     rt.attach(FX, "do_fix", name="fix.do_fix", pre=pre_fix, post=post_fix, on_exc=exc_fix, also=[(CM, "do_fix")])
     return traced
